@@ -1141,8 +1141,11 @@ impl Formatter {
             Pattern::Binding(name) => self.writer.write(name),
             Pattern::Literal(lit) => self.format_literal(lit),
             Pattern::Constructor(name, patterns) => {
-                self.writer.write(name);
-                if !patterns.is_empty() {
+                // the parser stores `Type.Variant` as "Type::Variant"; `::` is not pattern syntax
+                let qualified = name.contains("::");
+                self.writer.write(&name.replace("::", "."));
+                // `Foo()` is a constructor pattern, bare `Foo` would be a binding
+                if !patterns.is_empty() || !qualified {
                     self.writer.write("(");
                     for (i, p) in patterns.iter().enumerate() {
                         if i > 0 {
